@@ -104,6 +104,9 @@ func genHistory(rng *rand.Rand, n int) []step {
 }
 
 func runSequential(r *h.Run, idx int, hist []step) {
+	if r.TooMany() {
+		return
+	}
 	cl, err := bh.NewCluster()
 	if err != nil {
 		r.Inconclusive(err.Error())
@@ -239,6 +242,9 @@ type pubRec struct {
 }
 
 func runConcurrent(r *h.Run, idx int) {
+	if r.TooMany() {
+		return
+	}
 	rng := r.Rand(fmt.Sprintf("c06-conc-%d", idx))
 	cl, err := bh.NewClusterWith(func(b *bh.Broker) {
 		if idx%2 == 0 {
